@@ -632,6 +632,64 @@ def dgram(W, rnd):
     random_ops(W, rnd, 8)
 
 
+def cycle(W, rnd, seed):
+    """An address range as a pool that is handed out and given back MORE often than it has entries: the 32 dynamic
+    (bind()) or the 16 named (bind(name)) addresses of one controller are exhausted, given back and taken again -
+    all at once, or one at a time with the range kept full (every close must make exactly its address available
+    again, the next allocation must get it, and the one after that must fail)."""
+    c = rnd.choice("AB")
+    named = bool(seed % 2)
+    size = 16 if named else 32
+    names = NAMESEQ[1:]
+    rnd.shuffle(names)
+    spare = list(names)                     # the names not bound at the moment (20 names for 16 addresses)
+    held = {}                               # socket id -> name
+
+    def alloc():
+        i = W.socket(c, rnd.choice(["ldl", "dlc"]) if named else rnd.choice(["ldl", "ldl", "dlc", "raw"]))
+        if named:
+            n = spare.pop(rnd.randrange(len(spare)))
+            if W.bind_name(c, i, n)["res"] == "OK":
+                held[i] = n
+            else:
+                spare.append(n)
+        elif W.bind_none(c, i)["res"] == "OK":
+            held[i] = ""
+        return i
+
+    def free(i):
+        W.close(c, i)
+        n = held.pop(i)
+        if n:
+            spare.append(n)
+
+    for k in range(size):
+        alloc()
+    alloc()                                 # the range is exhausted
+    if rnd.random() < 0.5:
+        # one at a time, the range stays full: more allocate/close rounds than it has addresses
+        for k in range(size + rnd.randint(2, 6)):
+            free(rnd.choice(sorted(held)))
+            alloc()
+            if k % 8 == 0:
+                alloc()                     # exhausted again
+    else:
+        order = sorted(held)
+        rnd.shuffle(order)
+        for i in order[:rnd.choice([size, size, size - 3])]:
+            free(i)
+        while len(held) < size:
+            alloc()
+        alloc()                             # exhausted again
+        for k in range(4):
+            free(rnd.choice(sorted(held)))
+            alloc()
+    if named:
+        # what the peer finds under the names that moved
+        for n in rnd.sample(sorted(held.values()), 2) + spare[:1]:
+            W.resolve(W.peer(c), n)
+
+
 def history(seed, klass):
     rnd = random.Random(seed)
     random.seed(seed)
@@ -725,6 +783,8 @@ def history(seed, klass):
             j = W.socket(c, "ldl")
             W.bind_name(c, j, "wk")
             random_ops(W, rnd, 10)
+        elif klass == "cycle":
+            cycle(W, rnd, seed)
         elif klass == "life":
             life(W, rnd)
         elif klass == "dgram":
@@ -856,7 +916,14 @@ def run(tier, seed):
         missing = set(names) - hit
         if missing:
             raise tlc.TLCError("vacuous model: witnesses not reached: %s" % sorted(missing))
-    ck.cover(witnesses_reached=sorted(sum(WITNESSES.values(), [])))
+    # an address range is exhausted, given back and exhausted again (temporal witnesses: the properties must be violated)
+    for cfg, prop in (("MC_LlcpAddr_alloc_refill.cfg", "NeverDynRefilled"), ("MC_LlcpAddr_alloc_refilln.cfg", "NeverNamedRefilled")):
+        rr = tlc.run("MC_LlcpAddr.tla", cfg, PID + "/" + prop, workers=2, timeout=400)
+        if rr.violated and rr.violated != ["<temporal>"]:
+            ck.violation("spec:LlcpAddr(refill):%s" % ",".join(rr.violated), "TLC: %s" % (rr.error_trace or "")[:2000])
+        elif "Temporal property %s was violated" % prop not in rr.out:
+            raise tlc.TLCError("vacuous model: an address range is never exhausted, given back and exhausted again (%s holds)" % prop)
+    ck.cover(witnesses_reached=sorted(sum(WITNESSES.values(), [])) + ["NeverDynRefilled violated", "NeverNamedRefilled violated"])
 
     walls["asis+witnesses"] = round(time.time() - t_start, 1)
     # 2. conformance: real histories -> Trace_LlcpAddr
@@ -868,6 +935,12 @@ def run(tier, seed):
         tr = history(s, klass)
         traces.append(tr)
         meta[tr["id"]] = dict(seed=s, klass=klass)
+    # the address ranges beyond one full cycle of their pool (dynamic and named alternate with the seed)
+    for j in range(4 if quick else 24):
+        s = seed * 1000003 + n + j
+        tr = history(s, "cycle")
+        traces.append(tr)
+        meta[tr["id"]] = dict(seed=s, klass="cycle")
     self_t = selftest_traces(traces)
     verdicts, st = tlc.validate_traces("Trace_LlcpAddr.tla", "Trace_LlcpAddr.cfg", PID, traces + self_t,
                                        shards=16, timeout=900 if quick else 3000)
